@@ -344,7 +344,7 @@ pub fn run(ctx: &Ctx) -> EvidenceMeta {
     ctx.proptest(
         "grammar",
         ctx.n(14_000, 1_400_000),
-        || gen::wire_spec(7).prop_map(Case::Wire),
+        || gen::wire_spec_mixed(7).prop_map(Case::Wire),
         test,
     );
     ctx.proptest(
